@@ -178,3 +178,10 @@ Example C15_example_errors :
   map (fun e => match e with EAudit _ _ _ k => k | _ => 0 end) (cb_dropped _ _ _ _ (p_cb _ _ _ _ _ (o_ret _ _ _ _ _ o))) = [2] /\
   map (map c_idx) (cb_groups _ _ _ _ (p_cb _ _ _ _ _ (o_fin _ _ _ _ _ o))) = [[0; 4]; [1; 2]; [3]].
 Proof. vm_compute. repeat split; reflexivity. Qed.
+
+(* GENERATED from auditd.go: the channel the callback reports errors into has capacity 1 — the
+   "slot" of the model.  (With capacity 0 the non-blocking send would drop an error whenever
+   Read's goroutine is not waiting in its select at that instant.) *)
+Theorem C15_error_slot_capacity : Gen.Consts.reassemblerErrorsCap = 1%Z.
+Proof. reflexivity. Qed.
+Print Assumptions C15_error_slot_capacity.
